@@ -66,6 +66,16 @@ Findings on the unchanged tree (genuine, keys name the mechanism):
 All three are reported through whichever entry point (superpose, lprmsd) observed them; md.rmsd itself is not affected
 (it never builds the rotation).
 
+Wider input classes (block="wide" cases; every judgement reuses the monitors above): index lists handed over as python lists / tuples /
+int32 / uint16 / intp arrays / non-contiguous strided views (separately for atom_indices and ref_atom_indices), all atoms named explicitly
+(mdtraj then gathers a copy instead of working on the caller's memory), the frame argument omitted, references of 40 / 130 frames with the
+frame near the end, targets of 97..300 frames (beyond every OpenMP team size and the 100-frame default chunk; also under the thread sweep),
+md.rmsf(precentered=True) with traces on both sides / on one side, md.rmsf(t, t, f) (target object as reference), md.rmsf(t, None)
+(documented: fluctuation about the average of the frames; frames centred in place when atom_indices is None, taken as given with an index
+array), md.rmsd(precentered=True) where only one side carries traces (the shortcut must not be taken) or one centred object plays both
+roles, md.lprmsd(parallel=False) bit-identical to parallel=True.
+Left out: negative frame indices and duplicated atom indices (undocumented), boolean masks as atom_indices (refused).
+
 Not a C06 violation, recorded for the reader: md.rmsf(target, reference, atom_indices=<array>) rotates an *uncentred*
 copy of the selected atoms (the centred copy is used only to find the rotation), so inter-frame translation is not
 removed (4 nm instead of 0.07 nm on a drifting 10-atom test).  rmsf is not part of the statement; the rmsf monitor
@@ -90,7 +100,10 @@ RULE = ("cases = (entry-point kind, N selected atoms cycling through 3..67,100,1
         "selection mode, 1-50 frames) from a seeded stream; thorough adds N to 131, 255-258, 997-1004, 3998-4001 and an "
         "exhaustive grid N=3..20 x relation x rotation class x selection mode for rmsd and superpose; a case is "
         "non-trivial when a monitor compared real output with the float64 Kabsch oracle or a bit-level relation; "
-        "distinct = distinct descriptors")
+        "distinct = distinct descriptors; block=wide cases pass the index lists as list / tuple / int32 / uint16 / intp / strided views, name all "
+        "atoms explicitly, omit the frame argument, use references of 40 / 130 frames with the frame near the end, targets of 97..300 frames, "
+        "md.rmsf with precentered=True / reference=None / the target object as reference, precentered=True with traces on one side only or "
+        "one object in both roles, md.lprmsd(parallel=False)")
 WORKERS = {"quick": 8, "thorough": 16}
 BUDGET = {"quick": 60, "thorough": 900}
 ENV = {"OMP_WAIT_POLICY": "passive", "OMP_NUM_THREADS": "4"}
@@ -118,6 +131,10 @@ SELS = ["all", "same-sorted", "same-shuffled", "different"]
 SCALES = [0.05, 0.1, 0.3, 0.3, 1.0, 1.0, 3.0]
 OFFS = [0.0, 0.0, 1.0, 30.0, 300.0]
 TEAMS = [1, 2, 3, 5, 8, 16]
+WKINDS = ["rmsd", "superpose", "precentered", "threads", "rmsf", "rmsf_opts", "rmsd", "superpose", "precentered_mixed", "relations", "lprmsd", "rmsf_opts", "junk"]
+NWIDE = {"quick": 2600, "thorough": 30000}
+LONG_NF = [97, 100, 101, 128, 256, 257, 300]
+CONTS = ["ndarray", "list", "tuple", "int32", "uint16", "strided-view", "intp"]
 
 
 # ------------------------------------------------------------------------------------------------ generation
@@ -145,6 +162,23 @@ def _gen_cases(tier, seed):
                    shape=str(rng.choice(SHAPES)), rel=str(rng.choice(RELS)), rot=str(rng.choice(ROTS)),
                    sel=str(rng.choice(SELS)), scale=float(rng.choice(SCALES if N > 4 or rng.random() < 0.8 else [0.02, 0.05])),
                    off_t=float(rng.choice(OFFS)), off_r=float(rng.choice(OFFS)), nref=int(rng.integers(1, 4)))
+    # ---- wider input classes (block="wide"): index containers / dtypes / contiguity, explicit full selections, omitted frame
+    # argument, references with many frames (frame near the end), trajectories of 97..300 frames (beyond any chunk / team size),
+    # rmsf option values, precentered with traces on one side only, lprmsd parallel flag
+    i0 = n + (0 if tier == "quick" else 200000)
+    for j in range(NWIDE[tier]):
+        i = i0 + j
+        rng = common.rng_for("C06w", seed, j)
+        kind = WKINDS[j % len(WKINDS)]
+        N = ns[(j // len(WKINDS) + 5 * (j % len(WKINDS))) % len(ns)]
+        long_ok = N <= 67
+        u = rng.random()
+        nf = int(rng.choice(LONG_NF)) if (long_ok and u < (0.12 if tier == "quick" else 0.25)) else int(rng.integers(1, 7 if N >= 900 else 13))
+        nref = int(rng.choice([40, 130])) if (long_ok and rng.random() < 0.2) else int(rng.integers(1, 4))
+        yield dict(i=i, seed=common.case_seed(seed, "C06w", j), kind=kind, n=N, nf=nf, shape=str(rng.choice(SHAPES)), rel=str(rng.choice(RELS)),
+                   rot=str(rng.choice(ROTS)), sel=str(rng.choice(SELS + ["explicit-all", "explicit-all"])), scale=float(rng.choice(SCALES if N > 4 else [0.05, 0.3, 1.0])),
+                   off_t=float(rng.choice(OFFS)), off_r=float(rng.choice(OFFS)), nref=nref, block="wide",
+                   cont=str(rng.choice(CONTS)), cont_r=str(rng.choice(CONTS)), noframe=bool(rng.random() < 0.15), last_frame=bool(rng.random() < 0.5))
     if tier == "thorough":
         i = n
         for N, rel, rot, sel, kind in itertools.product(range(3, 21), RELS, ROTS[2:], SELS, ("rmsd", "superpose")):
@@ -245,6 +279,11 @@ def _build(case, sel=None, rng=None):
     w = Work()
     w.rng = rng
     w.frame = int(rng.integers(0, case["nref"]))
+    if case.get("block") == "wide":
+        if case.get("noframe"):
+            w.frame = 0
+        elif case.get("last_frame") and case["nref"] > 3:
+            w.frame = case["nref"] - 1 - int(rng.integers(0, 2))
     P = _structure(rng, n, shape, scale)
     # the rotation class is the optimal rotation target -> reference of related pairs: the reference keeps the
     # orientation of P unless the class is "random" (then everything is in general position)
@@ -268,6 +307,12 @@ def _build(case, sel=None, rng=None):
             # ref_atom_indices is passed
             ir = rng.permutation(n)
             rai = ir
+    elif sel == "explicit-all":
+        # every atom named explicitly (in order): mdtraj then works on a gathered copy instead of the caller's memory
+        nt = nr = n
+        ia = ir = np.arange(n)
+        ai = np.arange(n)
+        rai = None if rng.random() < 0.5 else np.arange(n)
     elif sel in ("same-sorted", "same-shuffled"):
         nt = nr = n + ext
         ia = rng.permutation(nt)[:n]
@@ -292,9 +337,35 @@ def _build(case, sel=None, rng=None):
     w.X = X.astype(np.float32)
     w.Y = Y.astype(np.float32)
     w.ai, w.rai, w.ia, w.ir = ai, rai, ia, ir
+    if case.get("block") == "wide":
+        w.ai, w.rai = _container(ai, case.get("cont")), _container(rai, case.get("cont_r"))
+        w.noframe = bool(case.get("noframe")) and w.frame == 0
     global _LAST
     _LAST = w
     return w
+
+
+def _container(idx, cont):
+    """the same indices in another container / dtype / memory layout"""
+    if idx is None or cont in (None, "ndarray"):
+        return idx
+    idx = np.asarray(idx)
+    if cont == "list":
+        return [int(i) for i in idx]
+    if cont == "tuple":
+        return tuple(int(i) for i in idx)
+    if cont == "int32":
+        return idx.astype(np.int32)
+    if cont == "uint16":
+        return idx.astype(np.uint16) if idx.max() < 65000 else idx.astype(np.uint32)
+    if cont == "strided-view":
+        return np.repeat(idx, 2)[::2]
+    return idx.astype(np.intp)
+
+
+def _fkw(w):
+    """the frame argument: omitted when the case asks for the default"""
+    return {} if getattr(w, "noframe", False) else {"frame": w.frame}
 
 
 def _kw(w):
@@ -332,6 +403,11 @@ def _decade(x):
 
 
 def _observe_case(case, ctx):
+    if case.get("block") == "wide":
+        ctx.observe("wide.index_container", f"{case['cont']}/{case['cont_r']}")
+        ctx.observe("wide.n_frames", "97-300" if case["nf"] >= 97 else "<=12")
+        ctx.observe("wide.reference_frames", "40-130" if case["nref"] > 3 else "1-3")
+        ctx.observe("wide.frame_argument", "omitted" if case.get("noframe") else "given")
     ctx.observe("kind", case["kind"])
     ctx.observe("n_mod_4", case["n"] % 4)
     ctx.observe("n_class", "3-4" if case["n"] <= 4 else "5-67" if case["n"] <= 67 else "68-300" if case["n"] <= 300 else ">=900")
@@ -339,7 +415,7 @@ def _observe_case(case, ctx):
     ctx.observe("relation", case["rel"])
     ctx.observe("rotation", case["rot"])
     ctx.observe("offsets", "t=%g r=%g" % (case["off_t"], case["off_r"]))
-    ctx.observe("n_frames", "1" if case["nf"] == 1 else "2-8" if case["nf"] <= 8 else "9-50")
+    ctx.observe("n_frames", "1" if case["nf"] == 1 else "2-8" if case["nf"] <= 8 else "9-50" if case["nf"] <= 50 else "97-300")
 
 
 # ------------------------------------------------------------------------------------------------ judges
@@ -465,10 +541,10 @@ def _superpose(w, parallel=True, X=None):
     t = _traj(w.X if X is None else X)
     if getattr(w, "selfref", False):
         # the reference is the very trajectory that is being superposed (a frame of itself)
-        out = t.superpose(t, frame=w.frame, parallel=parallel, **_kw(w))
+        out = t.superpose(t, parallel=parallel, **_fkw(w), **_kw(w))
         return np.array(out.xyz, copy=True), True
     ref = _traj(w.Y)
-    out = t.superpose(ref, frame=w.frame, parallel=parallel, **_kw(w))
+    out = t.superpose(ref, parallel=parallel, **_fkw(w), **_kw(w))
     return np.array(out.xyz, copy=True), bool(_bits(ref.xyz, w.Y))
 
 
@@ -483,6 +559,7 @@ def _make_selfref(w):
     X = w.X.copy()
     X[frame, ir2] = w.Y[w.frame, w.ir]
     w.X, w.Y, w.frame, w.ir = X, X.copy(), frame, ir2
+    w.noframe = getattr(w, "noframe", False) and frame == 0
     w.rai = None if (np.array_equal(ir2, w.ia) and rng.random() < 0.5) else ir2
     w.selfref = True
     return w
@@ -490,6 +567,8 @@ def _make_selfref(w):
 
 def _rmsd(w, parallel=True, precentered=False, X=None, Y=None):
     import mdtraj as md
+    if getattr(w, "noframe", False):
+        return md.rmsd(_traj(w.X if X is None else X), _traj(w.Y if Y is None else Y), parallel=parallel, precentered=precentered, **_kw(w))
     return md.rmsd(_traj(w.X if X is None else X), _traj(w.Y if Y is None else Y), w.frame, parallel=parallel,
                    precentered=precentered, **_kw(w))
 
@@ -735,6 +814,117 @@ def _run_rmsf(case, ctx):
     ctx.ok("rmsf", int((~badm).sum()))
 
 
+def _judge_rmsf(ctx, got32, X32, ref32, prs, label, aligned=True, D=None):
+    """squared fluctuation about the mean of the (optimally superposed, or merely centred) frames vs float64, tolerance as in
+    _run_rmsf; prs None = no rotation involved"""
+    n = X32.shape[1]
+    if np.shape(got32) != (n,):
+        ctx.violation("rmsf", f"{label}:shape", f"shape {np.shape(got32)} expected {(n,)}")
+        return
+    if prs is not None:
+        bad = [p for p in prs if not _rot_ok(p)]
+        if bad:
+            ctx.skip("rmsf", "a frame's optimal rotation is ill-conditioned (near half turn / tiny / huge / near-degenerate spectrum): "
+                             "fluctuations are not a stable function of the input", n)
+            return
+    X64 = X32.astype(np.float64)
+    if prs is not None:
+        want = ob.rmsf_oracle(X32, ref32)
+        cond = max(_rot_cond(p) for p in prs)
+    else:
+        C = X64 - X64.mean(1, keepdims=True) if aligned else X64
+        want = ((C - C.mean(0)) ** 2).sum(-1).mean(0)
+        cond = 0.0
+    rad = np.linalg.norm(X64 - X64.mean(1, keepdims=True), axis=2).max(0) if aligned else np.abs(X64).max(axis=(0, 2)) * np.sqrt(3.0)
+    # D: magnitude of the coordinates whose float32 centroid was subtracted (each frame keeps its own residual shift <= sqrt(3) eps32 D);
+    # for data centred beforehand by center_coordinates that is the magnitude of the ORIGINAL coordinates
+    D = float(np.abs(X32).max()) if D is None else max(float(D), float(np.abs(X32).max()))
+    e = geom.EPS32 * (rad * (4.0 * len(X32) + 16.0 * cond) + 8.0 * D) + 1e-12
+    got = np.asarray(got32, np.float64) ** 2
+    tol = 2 * np.sqrt(want) * e + e * e
+    badm = ~(np.abs(got - want) <= tol)
+    ctx.observe("rmsf.err/tol", _decade(float((np.abs(got - want) / tol).max())))
+    if badm.any():
+        j = int(np.argmax(np.where(badm, np.abs(got - want) / tol, 0)))
+        ctx.violation("rmsf", f"{label}:not-the-fluctuation-about-the-mean",
+                      f"{label}: rmsf^2 of atom {j} = {got[j]:.9g}, float64 gives {want[j]:.9g} (tolerance {tol[j]:.3g}, N={n}, {len(X32)} frames)", N=n)
+    ctx.ok("rmsf", int((~badm).sum()))
+
+
+def _run_rmsf_opts(case, ctx):
+    """md.rmsf option values the rmsf kind never passes: precentered=True (traces on both sides / on one side only), the target
+    object itself as reference, reference=None (documented: fluctuation about the average of the frames as they are; with
+    atom_indices=None the frames are centred in place first, with an index array they are taken as given)"""
+    import mdtraj as md
+    import warnings
+    if case["rot"] in ("half_exact", "half_axis", "near_half"):
+        case = dict(case, rot="small" if case["rot"] == "near_half" else "random")
+    if case["nf"] > 40:
+        case = dict(case, nf=40)
+    variant = ["precentered", "precentered-one-sided", "reference=self", "reference=None", "reference=None+atom_indices"][(case["i"] // len(WKINDS)) % 5]
+    ctx.observe("rmsf.option", variant)
+    w = _build(case, sel="all" if variant != "reference=None+atom_indices" else "same-sorted")
+    par = bool(w.rng.random() < 0.5)
+    with warnings.catch_warnings():
+        warnings.simplefilter("ignore")
+        if variant in ("precentered", "precentered-one-sided"):
+            t, ref = _traj(w.X), _traj(w.Y)
+            t.center_coordinates()
+            if variant == "precentered":
+                ref.center_coordinates()
+            Xc, Yc = np.array(t.xyz, copy=True), np.array(ref.xyz, copy=True)
+            f = md.rmsf(t, ref, w.frame, precentered=True, parallel=par)
+            f2 = md.rmsf(_traj(Xc), _traj(Yc), w.frame, precentered=False, parallel=not par)
+            wc = _clone(w, X=Xc, Y=Yc)
+            D0 = float(max(np.abs(w.X).max(), np.abs(w.Y[w.frame]).max()))
+            _judge_rmsf(ctx, f, Xc, Yc[w.frame], _pairs(wc), f"rmsf:{variant}", D=D0)
+            _judge_rmsf(ctx, f2, Xc, Yc[w.frame], _pairs(wc), "rmsf:precentered=False-on-centred-data", D=D0)
+        elif variant == "reference=self":
+            fr = int(w.rng.integers(0, len(w.X)))
+            t = _traj(w.X)
+            f = md.rmsf(t, t, fr, parallel=par)
+            ws = _clone(w, Y=w.X.copy())
+            ws.frame = fr
+            _judge_rmsf(ctx, f, w.X, w.X[fr], _pairs(ws), "rmsf:reference=target-object")
+        elif variant == "reference=None":
+            f = md.rmsf(_traj(w.X), None, parallel=par)
+            f0 = md.rmsf(_traj(w.X), None, parallel=not par)
+            ctx.check(_bits(f, f0), "parallel-bits", "rmsf(reference=None):parallel-vs-serial-differ", "md.rmsf(reference=None) parallel=True and parallel=False differ bitwise")
+            _judge_rmsf(ctx, f, w.X, None, None, "rmsf:reference=None", aligned=True)
+        else:
+            f = md.rmsf(_traj(w.X), None, atom_indices=w.ai, parallel=par)
+            _judge_rmsf(ctx, f, w.X[:, w.ia], None, None, "rmsf:reference=None+atom_indices", aligned=False)
+
+
+def _run_precentered_mixed(case, ctx):
+    """precentered=True where the shortcut cannot apply (traces on one side only) or where both roles are one object"""
+    import mdtraj as md
+    import warnings
+    variant = ["target-only", "reference-only", "same-object"][(case["i"] // len(WKINDS)) % 3]
+    ctx.observe("precentered.mixed", variant)
+    w = _build(case, sel="all")
+    t, ref = _traj(w.X), _traj(w.Y)
+    with warnings.catch_warnings():
+        warnings.simplefilter("ignore")
+        if variant == "same-object":
+            t.center_coordinates()
+            Xc = np.array(t.xyz, copy=True)
+            fr = int(w.rng.integers(0, len(Xc)))
+            r = md.rmsd(t, t, fr, precentered=True, parallel=bool(w.rng.random() < 0.5))
+            wc = _clone(w, X=Xc, Y=Xc.copy())
+            wc.frame = fr
+        else:
+            (t if variant == "target-only" else ref).center_coordinates()
+            Xc, Yc = np.array(t.xyz, copy=True), np.array(ref.xyz, copy=True)
+            r = md.rmsd(t, ref, w.frame, precentered=True)
+            wc = _clone(w, X=Xc, Y=Yc)
+    # D: magnitude of the original coordinates (second-order term of the float32 centroid, as in the precentered kind)
+    wD = _clone(wc)
+    wD.X, wD.Y = w.X, (w.X if variant == "same-object" else w.Y)
+    prs = _pairs(wc)
+    _judge_rmsd(ctx, r, prs, wD, f"rmsd:precentered:{variant}", monitor="precentered")
+
+
 _GOMP = None
 
 
@@ -844,6 +1034,9 @@ def _run_lprmsd(case, ctx):
     lp = md.lprmsd(_traj(w.X), _traj(w.Y), w.frame, permute_groups=single, **kw)
     ctx.observe("lprmsd", "singleton permute group")
     _judge_rmsd(ctx, lp, prs, w, "lprmsd:singleton-group", monitor="lprmsd")
+    if case.get("block") == "wide":
+        lp0 = md.lprmsd(_traj(w.X), _traj(w.Y), w.frame, permute_groups=single, parallel=False, **kw)
+        ctx.check(_bits(lp, lp0), "parallel-bits", "lprmsd:parallel-vs-serial-differ", "md.lprmsd parallel=True and parallel=False differ bitwise")
     # planted permutation inside one group of a slightly perturbed, rigidly moved copy
     if n < 7:
         ctx.skip("lprmsd", "planted permutation needs >= 4 distinguishable atoms + a group of >= 2")
@@ -943,7 +1136,7 @@ def _run_alignment(case, ctx):
                   "alignment.transform(mobile, target) differs from compute_transformation(mobile, target).transform(mobile)")
 
 
-RUN = {"alignment": _run_alignment, "rmsd": _run_rmsd, "relations": _run_relations, "precentered": _run_precentered, "superpose": _run_superpose,
+RUN = {"rmsf_opts": _run_rmsf_opts, "precentered_mixed": _run_precentered_mixed, "alignment": _run_alignment, "rmsd": _run_rmsd, "relations": _run_relations, "precentered": _run_precentered, "superpose": _run_superpose,
        "rmsf": _run_rmsf, "threads": _run_threads, "junk": _run_junk, "lprmsd": _run_lprmsd}
 
 
